@@ -41,6 +41,11 @@ func EqC(a, b *C) bool { return deriveEqual(a, b) }
 
 func EqB2(a, b *B) bool { return deriveEqualX(a, b) }
 
+// a VALUE argument of a type whose name starts with a non-ASCII letter: the fresh-name search cuts the type name
+type Émile struct{ N int }
+
+func EqE(a, b Émile) bool { return deriveEqual(a, b) }
+
 // a later derive call of another plugin that keeps its name (the file must still be rewritten for the earlier renames)
 func KeysOf(m map[string]int) []string { return deriveKeys(m) }
 
@@ -96,6 +101,11 @@ func VX_C11_e2e_B() {
 func VX_C11_e2e_C() {
 	x, y := vx.Nondet[*C]("x"), vx.Nondet[*C]("y")
 	vx.Assert(EqC(x, y) == refEqC(x, y), "the renamed call site over *C reaches an Equal generated for *C")
+}
+
+func VX_C11_e2e_E() {
+	x, y := vx.Nondet[Émile]("x"), vx.Nondet[Émile]("y")
+	vx.Assert(EqE(x, y) == (x.N == y.N), "the renamed call site over Émile reaches an Equal generated for Émile")
 }
 
 func VX_C11_e2e_keys() {
